@@ -6,6 +6,7 @@ from typing import Dict, List, Optional, Set, Tuple
 
 from .. import terms as tm
 from ..interp import Event, Interp, Result
+from ..known_functions import KNOWN_FUNCTIONS
 from ..lib import arg_of, fmt, is_call_to, sweep
 from ..progdb import AnalysisError, Function
 from ..terms import T, const
@@ -401,6 +402,12 @@ def _inside_atomic(e, atomic_funcs) -> bool:
                fn.module.name == q.rsplit(".", 1)[0] for q in atomic_funcs)
 
 
+def _yields(fn) -> bool:
+    import ast
+    return any(isinstance(n, (ast.Yield, ast.YieldFrom))
+               for n in ast.walk(fn.node))
+
+
 def check(ctx):
     prog = ctx.prog
     results = sweep(prog, "plain")
@@ -430,7 +437,10 @@ def check(ctx):
             ctx.ob("C19.1", res.func, False,
                    f"{fq}({pname}) replaces the target by a temporary file, "
                    f"but {why}: a reader (or a crash) can meet an empty or "
-                   f"partial file", key=f"C19.1:atomic:{fq}", **facts)
+                   f"partial file", key=f"C19.1:atomic:{fq}",
+                   # a generator (context manager) hands the temporary path
+                   # out: the write happens in its user's block
+                   evidence=not _yields(res.func), **facts)
     nsinks = broken_idiom
     for q, res in sorted(results.items()):
         sinks = list(find_sinks(res))
@@ -628,6 +638,11 @@ def check(ctx):
                 any(e is s[0] for s in find_sinks(res))
             if not is_writer:
                 continue
+            if e.data.get("inlined") and tgt is not None and \
+                    tgt.qualname not in KNOWN_FUNCTIONS:
+                # a function added later that was looked through: its own
+                # writes are in this run, each with the path it really gets
+                continue
             for v in vals:
                 if any(x.op == "global" and prot.get(x.args[0]) == fname
                        for x in v.walk()):
@@ -690,12 +705,21 @@ def check(ctx):
     m = prog.module(SETTINGS_MOD)
     rm = Interp(prog).run_module(m)
     order = []
+    inside = None        # depth of the init / update call being looked through
     for e in rm.of_kind("call"):
         n = e.data.get("name") or ""
+        if inside is not None and e.depth > inside:
+            continue     # what the two steps do themselves: C19.4 / upgrade
+        inside = None
         if n.endswith(".initialize_if_needed"):
             order.append(("init", e))
+            inside = e.depth
         elif n.endswith(".update_if_outdated"):
             order.append(("update", e))
+            inside = e.depth
+        elif e.data.get("how") == "ctor" and e.data.get("target") is None \
+                and n not in KNOWN_FUNCTIONS and not e.data.get("inlined"):
+            continue     # a record of the paths (no constructor code)
         elif any(x.op == "global" and prot.get(x.args[0]) == "settings.json"
                  or (tm.is_const(x) and x.args[1] == "settings.json")
                  for a in e.data["args"] for x in a.walk()):
